@@ -222,7 +222,7 @@ func genKeySpec(t *tape.Tape) *KeySpec {
 		// a curve that does not belong to the key type (or is not a signature
 		// curve): EC2 with an OKP curve, OKP with an EC2 curve.  Not a valid
 		// key; alg is dropped so that only the curve rule can object
-		other := []int64{refcose.CrvX25519, refcose.CrvX448, refcose.CrvEd25519, refcose.CrvEd448}
+		other := []int64{refcose.CrvX25519, refcose.CrvX448, refcose.CrvEd25519, refcose.CrvEd448, 8 /* secp256k1 */, 70, -1}
 		if ks.Kty == refcose.KtyOKP {
 			other = []int64{refcose.CrvP256, refcose.CrvP384, refcose.CrvP521}
 		}
